@@ -310,7 +310,9 @@ func (it *Interp) quickUnsat(c *smt.Term) bool {
 	if len(sub) == 0 || len(sub) == len(p.PC) {
 		return false
 	}
+	it.S.Tag = "quickUnsat"
 	r, err := it.S.Check(append(sub, c), 2000)
+	it.S.Tag = ""
 	if err != nil {
 		return false
 	}
@@ -362,11 +364,13 @@ func (it *Interp) Branch(c *smt.Term) bool {
 		// an algebraic equation between independent symbolic quantities: both outcomes are taken without
 		// asking the (non-linear) solver; an outcome that is in fact infeasible only adds a path whose
 		// obligations are discharged vacuously
-		alt := append(append([]dec{}, p.Decs...), dec{taken: false})
+		// explore the generic outcome first (the equation does NOT hold), the degenerate one later
+		generic := c.Op == smt.ONot
+		alt := append(append([]dec{}, p.Decs...), dec{taken: !generic})
 		it.push(alt)
-		d := dec{taken: true}
+		d := dec{taken: generic}
 		it.take(c, d)
-		return true
+		return generic
 	}
 	rt := it.feasible(c)
 	var d dec
@@ -549,12 +553,18 @@ func (it *Interp) Assert(label string, c *smt.Term) {
 		return
 	}
 	as := append(it.slice(neg), neg)
+	tA := time.Now()
 	r, err := it.S.Check(as, it.Cfg.AssertTimeout)
+	if it.Cfg.Verbose > 0 && time.Since(tA) > time.Second {
+		fmt.Fprintf(os.Stderr, "slow assertion query %.1fs => %v slice=%d/%d label=%s\n   cond: %s\n", time.Since(tA).Seconds(), r, len(as)-1, len(it.P.PC), label, it.C.String(neg))
+	}
 	if err == nil && r == smt.Sat && len(as) < len(it.P.PC)+1 {
 		// the slice admits a counterexample: decide on the full path condition
 		it.S.Pop()
 		as = append(append([]*smt.Term{}, it.P.PC...), neg)
+		it.S.Tag = "assert-full:" + label
 		r, err = it.S.Check(as, it.Cfg.AssertTimeout)
+		it.S.Tag = ""
 	}
 	if err == nil && r == smt.Sat && len(it.P.Exact) > 0 {
 		// the abstraction admits a counterexample: decide it with the exact definitions
@@ -633,11 +643,14 @@ func (it *Interp) Reach(label string, c *smt.Term) {
 		it.jr.WitnessCase[label] = it.caseN
 		return
 	}
+	if it.Cfg.Verbose > 0 {
+		fmt.Fprintf(os.Stderr, "reach %s: no sampled witness, asking the solver (pc=%d)\n", label, len(it.P.PC))
+	}
 	as := append(append([]*smt.Term{}, it.P.PC...), c)
 	as = append(as, it.P.Exact...)
 	to := it.Cfg.AssertTimeout
-	if to < 120_000 {
-		to = 120_000 // a witness is searched once per label: allow the solver more time than for obligations
+	if to > 20_000 {
+		to = 20_000 // sampling failed: this path is probably degenerate; another path will witness the label
 	}
 	r, err := it.S.Check(as, to)
 	if err != nil || r != smt.Sat {
@@ -813,7 +826,20 @@ func (it *Interp) runPath(j job, prefix []dec) {
 	it.jr.Completed++
 	if len(it.jr.Samples) < 2 {
 		// a concrete witness for the completed path
-		if r, err := it.S.Check(it.P.PC, it.Cfg.FeasTimeoutMs); err == nil && r == smt.Sat {
+		if env := it.sampleWitness(it.C.True); env != nil {
+			tape := make([]TapeEntry, len(it.P.Nondets))
+			for i, n := range it.P.Nondets {
+				v := "0"
+				if cv, ok := env[n.T]; ok && cv != nil && cv.IsConst() {
+					v = cv.Val.String()
+				}
+				tape[i] = TapeEntry{Label: n.Label, Kind: n.Kind, Value: v}
+			}
+			it.jr.Samples = append(it.jr.Samples, tapeString(tape))
+			return
+		}
+		it.S.Tag = "path-sample"
+		if r, err := it.S.Check(it.P.PC, 2000); err == nil && r == smt.Sat {
 			tape, _, err := it.tapeFromModel()
 			it.S.Pop()
 			if err == nil {
